@@ -139,6 +139,10 @@ def gen_project(rng, nmin=3, nmax=7, features=None):
             r["provideDeps"] = [rng.choice(r["depends"])["name"]]
         if "classes" in features and model["classes"] and rng.random() < 0.5:
             r["inherit"] = [rng.choice(sorted(model["classes"]))]
+        if "fingerprint" in features and rng.random() < 0.4:
+            r["fingerprint"] = True
+        if "nonreloc" in features and rng.random() < 0.25:
+            r["relocatable"] = False
         model["recipes"][name] = r
         if "shared" in features and rng.random() < 0.4 and idx and _deterministic(model, name):
             r["shared"] = True
@@ -218,8 +222,18 @@ def _yaml_recipe(name, r, model):
     elif r["src"] == "script":
         d["checkoutDeterministic"] = True
         d["checkoutScript"] = _checkout_script(name, r["salt"]["checkout"], r["buildVarsWeak"])
+    if r.get("fingerprint"):
+        # host dependent result, declared to Bob through a fingerprint: both read the
+        # emulated host id from a file outside the project
+        hf = model.get("hostfile", "/nonexistent-hostfile")
+        d["fingerprintIf"] = True
+        d["fingerprintScript"] = 'IFS= read -r h < "%s"\necho "host=$h"\n' % hf
+    if r.get("relocatable") is False:
+        d["relocatable"] = False
     if r["build"]:
         d["buildScript"] = _build_script(name, r["salt"]["build"], r["buildTools"], r["buildVarsWeak"])
+        if r.get("fingerprint"):
+            d["buildScript"] += 'IFS= read -r h < "%s"\necho "built-on-host=$h" >> b-%s.txt\n' % (hf, r["salt"]["build"])
     d["packageScript"] = _package_script(name, r["salt"]["package"], r["packageTools"], r["buildVarsWeak"])
     if r["buildTools"]:
         d["buildTools"] = list(r["buildTools"])
